@@ -30,10 +30,12 @@ def section(md, title_words):
 def main():
     want = sys.argv[1:]
     kept = 0
-    for f in sorted(glob.glob(os.path.join(RES, 'C??-?.json'))):
+    for f in sorted(glob.glob(os.path.join(RES, 'C??-?.json')) + glob.glob(os.path.join(RES, 'C??r2-?.json'))):
         base = os.path.basename(f)[:-5]
-        prop, n = base.split('-')
-        if want and prop not in want:
+        tag, n = base.split('-')
+        prop = tag[:3]
+        r2 = tag.endswith('r2')
+        if want and prop not in want and tag not in want:
             continue
         txt = open(f).read().strip()
         if not txt:
@@ -41,15 +43,15 @@ def main():
         d = json.loads(txt)
         c = d.get('confirm', {})
         ok = c.get('suite_with_change') == 'pass' and c.get('demo_with_change') == 'fails' and c.get('demo_without_change') == 'passes'
-        extra = os.path.join(RES, '%s-%s.confirm.json' % (prop, n))
+        extra = os.path.join(RES, '%s-%s.confirm.json' % (tag, n))
         if not ok and os.path.exists(extra):
             c = json.load(open(extra))
             ok = c.get('ok', False)
         if not ok:
             print('skip %s: not confirmed: %s' % (base, c))
             continue
-        src = '/tmp/mut/%s.out' % prop
-        dst = os.path.join(OUT, '%s-m%s' % (prop, n))
+        src = '/tmp/mut/%s%s.out' % (prop, '.r2' if r2 else '')
+        dst = os.path.join(OUT, '%s-%sm%s' % (prop, 'r2' if r2 else '', n))
         os.makedirs(dst, exist_ok=True)
         shutil.copy(os.path.join(src, 'mutant%s.diff' % n), os.path.join(dst, 'patch.diff'))
         shutil.copy(os.path.join(src, 'demo%s.rs' % n), os.path.join(dst, 'demo.rs'))
@@ -58,7 +60,7 @@ def main():
         title = md.strip().split('\n')[0].lstrip('# ').strip()
         checks = {}
         # merge later re-evaluations (Cnn-N*.json)
-        for g in sorted(glob.glob(os.path.join(RES, '%s-%s*.json' % (prop, n)))):
+        for g in sorted(glob.glob(os.path.join(RES, '%s-%s*.json' % (tag, n)))):
             if g.endswith('.confirm.json'):
                 continue
             t2 = open(g).read().strip()
@@ -68,10 +70,11 @@ def main():
                 first = next((l for l in r.get('lines', []) if 'what:' in l), '')
                 checks[p] = {'detected': bool(r.get('detected')), 'status': r.get('status'), 'first_report': first[:400]}
         meta = {
-            'id': '%s-m%s' % (prop, n),
+            'id': os.path.basename(dst),
+            'round': 2 if r2 else 1,
             'breaks_property': prop,
             'title': title,
-            'origin': 'written by an independent sub-agent that was given only the text of the property and its own scratch worktree of /repo (nothing from /verif)',
+            'origin': 'written by an independent sub-agent that was given only the text of the property and its own scratch worktree of /repo (nothing from /verif)' + ('; second, harder round: the agent was additionally told which ideas the first round had used and asked for subtler changes (long inputs, stride/alignment windows, multi-call interactions, out-of-bounds reads)' if r2 else ''),
             'what_changed': section(md, ['change', 'what was changed', 'what'])[:900],
             'needs_to_manifest': section(md, ['needed', 'manifest', 'needs'])[:1200],
             'confirmed_by_me': {
